@@ -176,7 +176,14 @@ theorem narrow_evalRT :
     exact ⟨rfl, ih.2⟩
   | .split _ true _, _, _, _, h, _ => by simp [HasTyR] at h
   | .merge _ _ _, _, _, _, h, _ => by simp [HasTyR] at h
-  | .disabled _ _, _, _, _, h, _ => by simp [HasTyR] at h
+  | .disabled d v, t, t', f, h, hs => by
+    simp only [HasTyR] at h
+    have ih := narrow_evalRT v t t' f h.2 hs
+    simp only [evalRT, HasTyR]
+    refine ⟨?_, h.1, ih.2⟩
+    split
+    · exact narrow_null hF t'
+    · exact ih.1
   | .fork c ix e, t, t', f, h, hs => by
     simp only [HasTyR] at h
     simp only [evalRT, HasTyR]
@@ -221,6 +228,28 @@ theorem narrow_evalRTMembers (ps : List Param) :
 end
 
 end L1
+
+/-! ## `makeDisabledExp` under the typed evaluation -/
+
+theorem evalRT_mkDisabled (st : StructTable) (F : Nat) (ρ : Store) (f : ForkAssign) (t : Ty) (d inner : RExp) :
+    evalRT st F ρ f t (mkDisabled d inner)
+      = if Martian.Dataflow.isTrue (evalRT st F ρ f ⟨"bool", 0, 0⟩ d) then .null else evalRT st F ρ f t inner := by
+  unfold mkDisabled
+  split
+  · simp [evalRT]
+  · simp only [evalRT, Martian.Dataflow.isTrue, beq_iff_eq]
+    split <;> simp [evalRT]
+  · simp [evalRT]
+
+theorem HasTyR_mkDisabled (st : StructTable) (d inner : RExp) (t : Ty)
+    (hd : HasTyR st ⟨"bool", 0, 0⟩ d) (hi : HasTyR st t inner) : HasTyR st t (mkDisabled d inner) := by
+  unfold mkDisabled
+  split
+  · simp [HasTyR, LitOk]
+  · split
+    · simp [HasTyR, LitOk]
+    · exact hi
+  · simp only [HasTyR]; exact ⟨hd, hi⟩
 
 /-! ## P: static projection commutes with the run-time evaluation -/
 
@@ -366,7 +395,16 @@ theorem proj1_evalRT :
     exact ⟨rfl, ih.2⟩
   | .split _ true _, _, _, _, h, _ => by simp [HasTyR] at h
   | .merge _ _ _, _, _, _, h, _ => by simp [HasTyR] at h
-  | .disabled _ _, _, _, _, h, _ => by simp [HasTyR] at h
+  | .disabled d v, t, fld, f, h, hfo => by
+    simp only [HasTyR] at h
+    have ih := proj1_evalRT v t fld f h.2 hfo
+    simp only [bpR]
+    refine ⟨?_, HasTyR_mkDisabled st d _ _ h.1 ih.2⟩
+    rw [evalRT_mkDisabled]
+    simp only [evalRT]
+    split
+    · exact proj1_null _ _
+    · exact ih.1
   | .fork c ix e, t, fld, f, h, hfo => by
     simp only [HasTyR] at h
     simp only [evalRT, bpR, HasTyR]
